@@ -6,13 +6,17 @@ HERE="$(cd "$(dirname "$0")/.." && pwd)"
 JOBS=${1:-6}; shift
 one() {
   name=$1; d="$HERE/seeded/$name"; wt=/tmp/cs_$name
-  c=$(python3 -c "import json;print(json.load(open('$d/meta.json'))['caught_by'][0])")
+  c=$(python3 -c "import json;m=json.load(open('$d/meta.json'));print((m['caught_by'] or ['QUIET:'+m['breaks_property']])[0])")
+  quiet=0; case "$c" in QUIET:*) quiet=1; c=${c#QUIET:};; esac
   git -C /repo worktree add --detach "$wt" HEAD -q 2>/dev/null || { echo "$name worktree-failed"; return; }
   if ! git -C "$wt" apply "$d/patch.diff" 2>/dev/null; then echo "$name patch-does-not-apply"; git -C /repo worktree remove --force "$wt"; return; fi
   out=/tmp/cs_$name.log
   (cd "$HERE" && PYTHONPATH="$wt" timeout 1500 /venv/bin/python harness/check.py "$c" --no-evidence > "$out" 2>&1); rc=$?
   n=$(grep '^VIOLATION' "$out" | grep -vc 'no-failing-input-found')
-  if [ $rc -eq 1 ] && [ "$n" -ge 1 ]; then echo "$name $c caught ($n concrete)"; else echo "$name $c MISSED rc=$rc concrete=$n"; fi
+  if [ $quiet -eq 1 ]; then
+    # a change judged NOT to break the property as stated (see its meta.json): the check must stay quiet
+    if [ $rc -eq 0 ]; then echo "$name $c quiet-as-intended"; else echo "$name $c FALSE-ALARM rc=$rc"; fi
+  elif [ $rc -eq 1 ] && [ "$n" -ge 1 ]; then echo "$name $c caught ($n concrete)"; else echo "$name $c MISSED rc=$rc concrete=$n"; fi
   git -C /repo worktree remove --force "$wt"
 }
 export -f one; export HERE
